@@ -77,39 +77,56 @@ Qed.
 (* ---------------------------------------------------------------- mstr.CompareNatural *)
 From Mds Require Import Mstr.MstrProofsNat Mstr.MstrProofsZeros.
 
-(* CompareNatural(a, b), for all byte strings whose digit runs have at most 18 digits (so that
-   parseInt's 64-bit accumulation cannot wrap; the model wraps explicitly beyond): a normal return
-   whose value is the comparison of the token keys of a and b -- maximal digit runs as numbers, every
-   other byte as itself, compared lexicographically with a proper prefix first; tokens of the same
-   kind by value; a number against a byte: at the first token the byte decides (below '0' it sorts
-   before every number, otherwise after), at any later token the number sorts first. *)
-Theorem C20_compare_natural_key : forall a b : list Z, short_runs a -> short_runs b ->
-  compare_natural a b = Ok (key_cmp (key a) (key b)).
-Proof. exact compare_natural_key. Qed.
-Print Assumptions C20_compare_natural_key.
+(* The order laws, for ALL byte strings (no bound on the digit runs: Go's int overflow is in the
+   model, [compare_natural] wraps the accumulator of parseInt to 64 bits).
 
-(* hence: result in {-1, 0, 1} *)
-Theorem C20_compare_range : forall a b : list Z, short_runs a -> short_runs b ->
+   CompareNatural(a, b) on all strings is a normal return whose value is the comparison of the
+   token keys of a and b with every digit run read through a 64-bit accumulator ([wkey]):
+   maximal digit runs as numbers, every other byte as itself, compared lexicographically with a
+   proper prefix first; tokens of the same kind by value; a number against a byte: at the first
+   token the byte decides (below '0' it sorts before every number, otherwise after), at any later
+   token the number sorts first. *)
+Theorem C20_compare_all_strings : forall a b : list Z,
+  compare_natural a b = Ok (key_cmp (wkey a) (wkey b)).
+Proof. exact compare_natural_wkey. Qed.
+Print Assumptions C20_compare_all_strings.
+
+(* hence, with no hypothesis: result in {-1, 0, 1} *)
+Theorem C20_compare_range : forall a b : list Z,
   exists c, compare_natural a b = Ok c /\ (c = -1 \/ c = 0 \/ c = 1).
 Proof. exact compare_natural_range. Qed.
 Print Assumptions C20_compare_range.
 
 (* antisymmetric: cmp(b, a) = - cmp(a, b) *)
-Theorem C20_compare_antisym : forall a b : list Z, short_runs a -> short_runs b ->
+Theorem C20_compare_antisym : forall a b : list Z,
   exists c, compare_natural a b = Ok c /\ compare_natural b a = Ok (- c).
 Proof. exact compare_natural_antisym. Qed.
 Print Assumptions C20_compare_antisym.
 
 (* transitive: a <= b and b <= c give a <= c, and a ~ c only if a ~ b ~ c *)
-Theorem C20_compare_trans : forall a b c : list Z, short_runs a -> short_runs b -> short_runs c ->
+Theorem C20_compare_trans : forall a b c : list Z,
   exists x y z, compare_natural a b = Ok x /\ compare_natural b c = Ok y /\ compare_natural a c = Ok z /\
     (x <= 0 -> y <= 0 -> z <= 0) /\ (x <= 0 -> y <= 0 -> z = 0 -> x = 0 /\ y = 0).
 Proof. exact compare_natural_trans. Qed.
 Print Assumptions C20_compare_trans.
 
+(* The numeric reading, on the exact domain where a 64-bit int holds every run: [runs_fit s] =
+   every maximal digit run of s spells a number below 2^63 (leading zeros do not count).  There
+   the value is the comparison of the keys with the runs as mathematical numbers. *)
+Theorem C20_compare_natural_key : forall a b : list Z, runs_fit a -> runs_fit b ->
+  compare_natural a b = Ok (key_cmp (key a) (key b)).
+Proof. exact compare_natural_key. Qed.
+Print Assumptions C20_compare_natural_key.
+
+(* the bound of the property text ("runs short enough not to overflow int"): at most 18 digits
+   per run is inside that domain *)
+Theorem C20_short_runs_fit : forall s : list Z, short_runs s -> runs_fit s.
+Proof. exact short_runs_fit. Qed.
+Print Assumptions C20_short_runs_fit.
+
 (* 0 exactly when the token keys coincide: the same bytes outside digit runs and digit runs of the
    same numeric value *)
-Theorem C20_compare_zero : forall a b : list Z, short_runs a -> short_runs b ->
+Theorem C20_compare_zero : forall a b : list Z, runs_fit a -> runs_fit b ->
   (compare_natural a b = Ok 0 <-> key a = key b).
 Proof. exact compare_natural_zero. Qed.
 Print Assumptions C20_compare_zero.
@@ -117,24 +134,53 @@ Print Assumptions C20_compare_zero.
 (* ... which is: equal up to leading zeros of digit runs.  [normal_form s] is s with the leading
    zeros of every maximal digit run removed (a run of zeros becoming "0"); that equal keys mean
    equal normal forms is the uniqueness of decimal notation (Mstr/MstrProofsZeros.v). *)
-Theorem C20_compare_zero_leading_zeros : forall a b : list Z, short_runs a -> short_runs b ->
+Theorem C20_compare_zero_leading_zeros : forall a b : list Z, runs_fit a -> runs_fit b ->
   (compare_natural a b = Ok 0 <-> normal_form a = normal_form b).
 Proof. exact compare_natural_zero_nf. Qed.
 Print Assumptions C20_compare_zero_leading_zeros.
 
-(* numeric on digit runs: two non-empty strings of at most 18 digits compare as their values *)
+(* numeric on digit runs: two non-empty strings of digits whose values fit an int compare as
+   their values (any number of leading zeros) *)
 Theorem C20_compare_numeric : forall a b : list Z, a <> [] -> b <> [] ->
-  forallb digit a = true -> forallb digit b = true -> (length a <= 18)%nat -> (length b <= 18)%nat ->
+  forallb digit a = true -> forallb digit b = true -> dec_val a < 2 ^ 63 -> dec_val b < 2 ^ 63 ->
   compare_natural a b = Ok (sgn_cmp (dec_val a) (dec_val b)).
 Proof. exact compare_natural_numeric. Qed.
 Print Assumptions C20_compare_numeric.
 
-(* "a2b" < "a12b" < "a12c", "a007" ~ "a7", "12" < "a", "/" < "12" *)
+(* Beyond that domain the numeric reading and the "0 exactly for ..." clause are FALSE of the code
+   as it stands (its doc comment states no bound): 2^64 = "18446744073709551616" compares equal to
+   "0", and 2^63 = "9223372036854775808" (19 digits, the smallest run that does not fit) compares
+   below "1".  [compare_natural_wide] is the same model with an accumulator that cannot overflow
+   (the only difference: [int_of false] instead of [int_of true] in parseInt); it is the key order
+   on ALL strings, and agrees with the code on the domain. *)
+Theorem C20_compare_overflow_refuted :
+  compare_natural two64 [48] = Ok 0 /\ normal_form two64 <> normal_form [48] /\ key two64 <> key [48] /\
+  compare_natural_wide two64 [48] = Ok 1 /\
+  compare_natural two63 [49] = Ok (-1) /\ dec_val two63 > dec_val [49] /\
+  compare_natural_wide two63 [49] = Ok 1 /\
+  ~ runs_fit two63 /\ ~ runs_fit two64.
+Proof. exact overflow_refuted. Qed.
+Print Assumptions C20_compare_overflow_refuted.
+
+Theorem C20_compare_wide_variant : forall a b : list Z,
+  compare_natural_wide a b = Ok (key_cmp (key a) (key b)) /\
+  (runs_fit a -> runs_fit b -> compare_natural a b = compare_natural_wide a b).
+Proof. intros a b. split; [apply compare_natural_wide_key | apply compare_natural_agrees_wide]. Qed.
+Print Assumptions C20_compare_wide_variant.
+
+(* "a2b" < "a12b" < "a12c", "a007" ~ "a7", "12" < "a", "/" < "12"; a 25-digit run with 22 leading
+   zeros is inside the domain (and not [short_runs]); 2^63 - 1 against 2^63 - 2 is decided correctly *)
 Example C20_compare_ex :
-  short_runs [97; 50; 98] /\ short_runs [97; 49; 50; 98] /\
+  runs_fit [97; 50; 98] /\ runs_fit [97; 49; 50; 98] /\
   compare_natural [97; 50; 98] [97; 49; 50; 98] = Ok (-1) /\
   compare_natural [97; 49; 50; 98] [97; 49; 50; 99] = Ok (-1) /\
   compare_natural [97; 48; 48; 55] [97; 55] = Ok 0 /\ key [97; 48; 48; 55] = key [97; 55] /\
   normal_form [97; 48; 48; 55; 47; 48; 48; 48] = [97; 55; 47; 48] /\
-  compare_natural [49; 50] [97] = Ok (-1) /\ compare_natural [47] [49; 50] = Ok (-1).
-Proof. repeat split; vm_compute; reflexivity. Qed.
+  compare_natural [49; 50] [97] = Ok (-1) /\ compare_natural [47] [49; 50] = Ok (-1) /\
+  (let z := repeat 48 22 ++ [49; 50; 51] in runs_fit z /\ ~ short_runs z /\ compare_natural z [49; 50; 52] = Ok (-1)) /\
+  (let m := [57;50;50;51;51;55;50;48;51;54;56;53;52;55;55;53;56;48] in
+   runs_fit (m ++ [55]) /\ compare_natural (m ++ [55]) (m ++ [54]) = Ok 1 /\ wkey (m ++ [56]) <> key (m ++ [56])).
+Proof.
+  unfold runs_fit, short_runs. cbv zeta.
+  repeat split; try (vm_compute; reflexivity); intros H; vm_compute in H; discriminate.
+Qed.
